@@ -630,8 +630,13 @@ impl jsonrpc::client::Transport for NodeTransport {
                     st.log_event(Call::SendRawTransaction(txid), Verdict::TransportError);
                     return Err(jsonrpc::Error::Transport(Box::new(Refused)));
                 }
+                drop(st);
+                crate::faults::point("rpc:sendrawtransaction:pre");
+                let mut st = self.0.lock();
                 let v = st.send_raw_transaction(&tx);
                 st.log_event(Call::SendRawTransaction(txid), v.clone());
+                drop(st);
+                crate::faults::point("rpc:sendrawtransaction:post");
                 Ok(match v {
                     Verdict::Accepted => rpc_ok(id, serde_json::Value::String(txid.to_string())),
                     Verdict::Error(c) => rpc_err(
